@@ -160,6 +160,11 @@ pub fn run(tape: &mut Tape, props: Props, thorough: bool, trace_on: bool) -> Out
     let ignore_naks = tape.draw(4) == 0;
     s.set_ignore_naks(ignore_naks);
     let h = node.sockets.add(s);
+    // sometimes the application joins an IPv4 multicast group before the interface has an address: membership
+    // reports need one and must not leave before there is one
+    if tape.draw(4) == 0 {
+        let _ = node.iface.join_multicast_group(smoltcp::wire::Ipv4Address::new(224, 0, 0, 251));
+    }
     let desc = format!("dhcp max_lease={:?} retry={:?} ignore_naks={} start={}us rx-packet-buffer={:?}", max_lease, retry, ignore_naks, cfg.start_us, rxbuf_len);
     let now = cfg.start_us;
     let mut c = C {
@@ -575,7 +580,8 @@ fn respond(c: &mut C, d: &Dhcp, mt: u8) -> Result<(), Violation> {
             valid = false;
         }
         4 => {
-            mask = *c.tape.pick(&[[255u8, 0, 255, 0], [255, 255, 255, 1], [0, 255, 255, 255]]);
+            // (also with an all-zero octet between the end of the run of ones and later one-bits)
+            mask = *c.tape.pick(&[[255u8, 0, 255, 0], [255, 255, 255, 1], [0, 255, 255, 255], [255, 0, 0, 1], [255, 128, 0, 255], [0, 0, 255, 0], [254, 0, 128, 0], [255, 255, 0, 128], [255, 255, 254, 255], [127, 255, 255, 0]]);
             valid = false;
         }
         5 => {
